@@ -89,7 +89,18 @@ Rcv ==
        /\ fresh' = Set(fresh, u, At(fresh, u, {}) \cup {e.pks[i].sp : i \in {j \in 1 .. Len(e.pks) : e.pks[j].ae}})
        \* the clock of the latency clause starts with an ack-eliciting 1-RTT packet that was certainly
        \* processed by an established connection
-       /\ due' = IF dataAe /\ e.all /\ e.est /\ e.keys /\ At(due, u, -1) = -1 THEN Set(due, u, e.t) ELSE due
+       \* (a request for a shorter delay that arrives while the clock runs does not bring the deadline
+       \* forward: the timer is armed when the packet arrives, with the delay in force then)
+       /\ due' = IF dataAe /\ e.all /\ e.est /\ e.keys /\ At(due, u, -1) = -1 THEN Set(due, u, e.t)
+                 ELSE IF At(due, u, -1) # -1 /\ e.all /\ Len(e.af) > 0
+                 THEN LET a0 == At(afp, u, AfDefault)
+                          a1 == FoldAf(a0, e.af, 1)
+                          ks == {k \in DOMAIN who : who[k] = u}
+                          dflt == IF ks = {} THEN 25000 ELSE At(mad, CHOOSE k \in ks : TRUE, 25000)
+                          m0 == IF a0.mad # -1 THEN a0.mad ELSE dflt
+                          m1 == IF a1.mad # -1 THEN a1.mad ELSE dflt
+                      IN IF m1 < m0 THEN Set(due, u, At(due, u, -1) + (m0 - m1)) ELSE due
+                 ELSE due
        \* ack-eliciting 1-RTT packets certainly processed since the last 1-RTT ACK; the second one makes
        \* the acknowledgement due at once
        /\ LET k == IF e.all /\ e.est /\ e.keys
